@@ -55,10 +55,28 @@ pub fn take_block_events() -> Vec<BlockEvent> {
     BLOCK_EVENTS.with(|e| std::mem::replace(&mut *e.borrow_mut(), Vec::new()))
 }
 
+/// Checks that the block at `location`, including its trailer, lies within a file of `file_size`
+/// bytes, so that a damaged handle can't cause a huge allocation.
+fn check_block_bounds(location: &BlockHandle, file_size: usize) -> Result<()> {
+    let trailer = table_builder::TABLE_BLOCK_COMPRESS_LEN + table_builder::TABLE_BLOCK_CKSUM_LEN;
+    match location
+        .offset()
+        .checked_add(location.size())
+        .and_then(|end| end.checked_add(trailer))
+    {
+        Some(end) if end <= file_size => Ok(()),
+        _ => err(
+            StatusCode::Corruption,
+            "block handle points outside of the file",
+        ),
+    }
+}
+
 /// `Table` is used for accessing SSTables.
 #[derive(Clone)]
 pub struct Table {
     file: Arc<Box<dyn RandomAccess>>,
+    file_size: usize,
     cache_id: cache::CacheID,
 
     opt: Options,
@@ -79,11 +97,14 @@ impl Table {
     /// Creates a new table reader.
     pub fn new(opt: Options, file: Box<dyn RandomAccess>, size: usize) -> Result<Table> {
         let footer = read_footer(file.as_ref(), size)?;
+        check_block_bounds(&footer.index, size)?;
+        check_block_bounds(&footer.meta_index, size)?;
         let index_block = table_block::read_table_block(opt.clone(), file.as_ref(), &footer.index)?;
         let metaindex_block =
             table_block::read_table_block(opt.clone(), file.as_ref(), &footer.meta_index)?;
 
-        let filter_block_reader = Table::read_filter_block(&metaindex_block, file.as_ref(), &opt)?;
+        let filter_block_reader =
+            Table::read_filter_block(&metaindex_block, file.as_ref(), size, &opt)?;
         let cache_id = {
             let mut block_cache = opt.block_cache.write()?;
             block_cache.new_cache_id()
@@ -91,6 +112,7 @@ impl Table {
 
         Ok(Table {
             file: Arc::new(file),
+            file_size: size,
             cache_id: cache_id,
             opt: opt,
             footer: footer,
@@ -102,6 +124,7 @@ impl Table {
     fn read_filter_block(
         metaix: &Block,
         file: &dyn RandomAccess,
+        file_size: usize,
         options: &Options,
     ) -> Result<Option<FilterBlockReader>> {
         // Open filter block for reading
@@ -115,6 +138,7 @@ impl Table {
         if let Some((_key, val)) = current_key_val(&metaindexiter) {
             let filter_block_location = BlockHandle::decode(&val).0;
             if filter_block_location.size() > 0 {
+                check_block_bounds(&filter_block_location, file_size)?;
                 return Ok(Some(table_block::read_filter_block(
                     file,
                     &filter_block_location,
@@ -141,6 +165,7 @@ impl Table {
     /// Read a block from the current table at `location`, and cache it in the options' block
     /// cache.
     fn read_block(&self, location: &BlockHandle) -> Result<Block> {
+        check_block_bounds(location, self.file_size)?;
         let cachekey = self.block_cache_handle(location.offset());
         let mut block_cache = self.opt.block_cache.write()?;
         if let Some(block) = block_cache.get(&cachekey) {
